@@ -413,8 +413,22 @@ REG.optional_keys['Thing'] = {'state', 'target_state', 'control', '$all'}
 SupEvt = T.Rec('SupEvt', n=T.Int, state=OStr, publish=T.Bool, push=T.Bool, fwd=T.Bool)
 
 
+def _base_advance_params():
+    """parameter names of the real BaseComponent.advance, in order (read from the
+    source on every run): positional arguments of super().advance(..) bind by it"""
+    from pyvc.frontend import FunctionSource
+    a = FunctionSource('utils/component.py', 'BaseComponent.advance').node.args
+    return [x.arg for x in a.args if x.arg != 'self']
+
+
 def _super_advance(ex, node, st):
     kw = {k.arg: ex.ev(k.value, st) for k in node.keywords}
+    for name, a in zip(_base_advance_params(), node.args):
+        kw[name] = ex.ev(a, st)
+    for name in ('things', 'state', 'publish', 'push', 'fwd'):
+        if name not in kw:
+            raise C.SpecError('super().advance is called without %s: the base class default would apply '
+                              '(not modelled)' % name)
     log = ex.get_var(st, 'sup_log')
     lty = log.ty
     things = kw['things']
